@@ -70,8 +70,10 @@ pub fn permutations_of(set: usize) -> u64 {
 /// Modes: 0 the final sync-cancel cancels everything, 1 one request completes
 /// normally first, 2 as 0 but the completion queue is already full of
 /// (wake-up) completions when the drops start, so that the final completions
-/// only become visible after a10 has made room.
-pub const MODES: u64 = 3;
+/// only become visible after a10 has made room, 3 as 0 but the submission queue
+/// is full of unsubmitted entries whenever an object is dropped (clean-up
+/// requests such as the close of a descriptor find no room).
+pub const MODES: u64 = 4;
 
 /// Total enumerated space: every set x every permutation x mode.
 pub fn total() -> u64 {
@@ -284,7 +286,25 @@ fn run_case(seed: u64, index: u64, set: usize, perm: u64, mode: u32, rep: &mut R
     let mut ring_dropped = false;
     let mut fd_dropped_after_ring = false;
     let mut dfd_dropped_after_ring = false;
+    let mut fillers: Vec<Box<dyn DynOp>> = Vec::new();
     for obj in &order {
+        if mode == 3 && !ring_dropped {
+            // Fill the submission queue; nobody enters the kernel between this and the drop.
+            let handle = o.ring.as_ref().map(|r| r.sq());
+            if let Some(handle) = handle {
+                for _ in 0..16 {
+                    let queued = enter::peek_sq(&mut simk::k(), ring_fd).len();
+                    if queued >= 8 {
+                        break;
+                    }
+                    let mut op = socket_op(&handle);
+                    let _ = alloc::a10(|| op.poll(&mut cx));
+                    fillers.push(op);
+                }
+                alloc::a10(|| drop(handle));
+                trace.push(format!("sq-full:{}", enter::peek_sq(&mut simk::k(), ring_fd).len()));
+            }
+        }
         trace.push(format!("drop:{obj:?}"));
         match obj {
             Obj::Ring => {
@@ -348,6 +368,11 @@ fn run_case(seed: u64, index: u64, set: usize, perm: u64, mode: u32, rep: &mut R
         if alloc::pending_violations() > 0 {
             break;
         }
+    }
+    if alloc::pending_violations() == 0 {
+        alloc::a10(|| drop(fillers));
+    } else {
+        std::mem::forget(fillers);
     }
     // --- ledgers.
     let mut poisoned = false;
